@@ -12,7 +12,8 @@ CASE_TIMEOUT = "10s"
 RULE = ("histories of 1-5 queries (call with/without lookup, per-API chains with DI maps) over random method "
         "multigraphs (cycles, self-loops, parallel edges, overloaded names, unresolved callees, quotes) and "
         "structured families (trees around the 7-expansion budget, cycles, diamonds, DI substitution); "
-        "non-trivial = some query draws at least one edge; distinct = distinct input")
+        "non-trivial = some query draws at least one edge; distinct = distinct input"
+        "; the first call query of every third history is observed through `coca call -c ROOT -d deps.json [-l]` (coca_reporter/call.dot of the built binary); models hold default-package classes and '$' in names")
 TRUSTED_BASE = ["modelled, not verified: Go map semantics, strings.Split/ReplaceAll/Join"]
 ASSUMPTIONS = ["each history runs in a fresh process; DOT well-formedness is decided by Lib/Dot.v's parser",
                "API labels (verb + uri) contain no double quote and are distinct from method names"]
